@@ -100,12 +100,16 @@ def gen_engine(rng, profile="algebraic", activations=("General",), weighted=Fals
         hi = lo + rng.choice([1.0, 4.0, 10.0])
         use_weighted = weighted and rng.random() < 0.6
         if use_weighted:
-            kind = rng.choice(["constant", "monotonic"])
+            kind = rng.choice(["constant", "monotonic", "mixed"])
             if kind == "constant":
                 terms = [{"name": f"o{i}{k}", "class": "Constant", "params": {"value": rng.choice([round(rng.uniform(lo, hi), 1), rng.uniform(lo, hi)])}} for k in range(rng.choice([2, 3]))]
-            else:
+            elif kind == "monotonic":
                 terms = [gen_term(rng, f"o{i}{k}", lo, hi, ["Ramp", "SShape", "ZShape"] + (["Sigmoid"] if profile != "algebraic" else [])) for k in range(rng.choice([2, 3]))]
-            defuzz = (rng.choice(["WeightedAverage", "WeightedSum"]), rng.choice(["Automatic", "Automatic", "TakagiSugeno", "Tsukamoto"] if kind == "monotonic" else ["Automatic", "TakagiSugeno"]))
+            else:  # both kinds in one variable: which one fires depends on the step (type inference must be per call)
+                terms = [{"name": f"o{i}0", "class": "Constant", "params": {"value": round(rng.uniform(lo, hi), 1)}},
+                         gen_term(rng, f"o{i}1", lo, hi, ["Ramp", "SShape", "ZShape"]),
+                         {"name": f"o{i}2", "class": "Constant", "params": {"value": rng.uniform(lo, hi)}}]
+            defuzz = (rng.choice(["WeightedAverage", "WeightedSum"]), rng.choice(["Automatic", "Automatic", "TakagiSugeno", "Tsukamoto"] if kind == "monotonic" else ["Automatic", "Automatic", "TakagiSugeno"]))
         else:
             terms = [gen_term(rng, f"o{i}{k}", lo, hi, classes) for k in range(rng.choice([2, 3]))]
             defuzz = (rng.choice(INTEGRAL), rng.choice([1, 2, 3, 5, 7, 8, 9, 16, 20, 33, 64]))
